@@ -9,6 +9,7 @@ import (
 	"runtime"
 	"runtime/debug"
 	"runtime/pprof"
+	"strconv"
 	"strings"
 	"sync/atomic"
 	"syscall"
@@ -60,6 +61,9 @@ func WorkerMain(propID string, seed int64, tier string, from, to int, inputsFile
 	budget := p.CPUBudget
 	if budget == 0 {
 		budget = 120
+	}
+	if v, err := strconv.ParseFloat(os.Getenv("VERIF_CPU_BUDGET"), 64); err == nil && v > 0 {
+		budget = v // development aid; registered commands never set it
 	}
 	if raceEnabled {
 		budget *= 20
